@@ -20,12 +20,13 @@ import (
 )
 
 type Disk struct {
-	mu      sync.Mutex
-	objs    map[string][]byte
-	issued  map[string]int // writes issued (parked before commit) per full key
-	Writes  []WriteRec     // committed writes in order (for monitors)
-	Deletes []string
-	Scheme  string // "file" or "sim": BaseURL().Scheme (walker polling cadence)
+	mu       sync.Mutex
+	objs     map[string][]byte
+	issued   map[string]int // writes issued (parked before commit) per full key
+	issuedBy map[string]int // ... per node
+	Writes   []WriteRec     // committed writes in order (for monitors)
+	Deletes  []string
+	Scheme   string // "file" or "sim": BaseURL().Scheme (walker polling cadence)
 	// OnCommit is called (under no lock) after a write commits.
 	OnCommit func(node, key string, data []byte)
 }
@@ -37,7 +38,7 @@ type WriteRec struct {
 }
 
 func NewDisk() *Disk {
-	return &Disk{objs: map[string][]byte{}, issued: map[string]int{}, Scheme: "sim"}
+	return &Disk{objs: map[string][]byte{}, issued: map[string]int{}, issuedBy: map[string]int{}, Scheme: "sim"}
 }
 
 func (d *Disk) Snapshot() map[string][]byte {
@@ -213,10 +214,12 @@ func (s *Store) WriteObject(ctx context.Context, name string, f io.Reader) error
 	k := s.key(name)
 	s.disk.mu.Lock()
 	s.disk.issued[k]++
+	s.disk.issuedBy[s.node]++
 	s.disk.mu.Unlock()
 	d, err := s.yield(ctx, "write", name, "io_err_write", "lost_ack", "disk_full")
 	s.disk.mu.Lock()
 	s.disk.issued[k]--
+	s.disk.issuedBy[s.node]--
 	s.disk.mu.Unlock()
 	if err != nil {
 		return err
